@@ -68,7 +68,6 @@ pub fn c10(r: &mut Rng, sz: &Sizes, out: &mut Vec<String>) {
     for (a, b) in pairs(r, sz) {
         out.push(format!("similar\t{}\t{}", sx(&a), sx(&b)));
         out.push(format!("p_similar\t{}\t{}\t!ok", sx(&a), sx(&b)));
-        out.push(format!("subset\t{}\t{}", sx(&a), sx(&b)));
     }
 }
 
@@ -157,6 +156,10 @@ pub fn core(r: &mut Rng, sz: &Sizes, out: &mut Vec<String>) {
 pub fn c01(r: &mut Rng, sz: &Sizes, out: &mut Vec<String>) {
     merger_ops(r, sz, out);
     infer_ops(r, sz, out, false);
+    for h in small_histories() {
+        let hexes: Vec<String> = h.iter().map(|d| crate::wire::hex(d.as_bytes())).collect();
+        out.push(format!("sourcesdoc\t{}\t!ok *", hexes.join("\t")));
+    }
     for _ in 0..sz.histories {
         let h = rand_history(r, &KEYS[..8]);
         let hexes: Vec<String> = h.iter().map(|d| hex_doc(d, r.below(4))).collect();
@@ -232,12 +235,66 @@ pub fn c17(r: &mut Rng, sz: &Sizes, out: &mut Vec<String>) {
     }
 }
 
-pub fn c03(r: &mut Rng, sz: &Sizes, out: &mut Vec<String>) {
-    merger_ops(r, sz, out);
-    for (a, b) in pairs(r, sz) {
-        out.push(format!("subset\t{}\t{}", sx(&a), sx(&b)));
+/// (single-document shape, accumulated shape, single-document shape) triples reachable through the
+/// public API: the domain on which C03/C09 need the model to agree with the code.
+fn reachable(r: &mut Rng, n: usize) -> (Vec<JsonShape>, Vec<JsonShape>) {
+    let samples = sample_shapes(r, 300);
+    let mut accs: Vec<JsonShape> = samples.clone();
+    for _ in 0..n {
+        let a = r.pick(&accs).clone();
+        let b = r.pick(&samples).clone();
+        accs.push(json_shape::verif::merger(a, b).unwrap());
     }
+    let mut parts = Vec::new();
+    for a in &accs {
+        collect_parts(a, &mut parts);
+    }
+    parts.sort();
+    parts.dedup();
+    (samples, parts)
+}
+
+pub fn reachable_ops(r: &mut Rng, sz: &Sizes, out: &mut Vec<String>) {
+    let (samples, parts) = reachable(r, 1500);
+    use json_shape::IsSubset;
+    for i in 0..sz.pairs * 2 {
+        let a = r.pick(&parts);
+        let b = r.pick(&samples);
+        // half of the triples use a sample that really is below the accumulator
+        let below: Vec<&JsonShape> = if i % 2 == 0 { samples.iter().filter(|s| s.is_subset(a)).collect() } else { vec![] };
+        let s0 = if below.is_empty() { r.pick(&samples) } else { *r.pick(&below) };
+        out.push(format!("subset\t{}\t{}", sx(s0), sx(a)));
+        out.push(format!("merger\t{}\t{}", sx(a), sx(b)));
+        out.push(format!("p_keeps\t{}\t{}\t{}\t!ok", sx(s0), sx(a), sx(b)));
+    }
+}
+
+/// small-scope exhaustive histories: every sequence of length <= 3 over a fixed pool of documents
+pub fn small_histories() -> Vec<Vec<String>> {
+    let pool = [
+        "null", "true", "1", "\"s\"", "[]", "[null]", "[1]", "[true]", "[2,\"a\"]", "[1,null]", "{}",
+        "{\"a\":1}", "{\"a\":null}", "[{\"a\":1},{}]", "[[]]", "{\"a\":[]}", "[[1],[\"a\"]]", "[{\"a\":{}}]", "[{\"a\":{}},{}]",
+    ];
+    let mut out = Vec::new();
+    for a in pool {
+        out.push(vec![a.to_string()]);
+        for b in pool {
+            out.push(vec![a.to_string(), b.to_string()]);
+            for c in pool {
+                out.push(vec![a.to_string(), b.to_string(), c.to_string()]);
+            }
+        }
+    }
+    out
+}
+
+pub fn c03(r: &mut Rng, sz: &Sizes, out: &mut Vec<String>) {
+    reachable_ops(r, sz, out);
     infer_ops(r, sz, out, false);
+    for h in small_histories() {
+        let hexes: Vec<String> = h.iter().map(|d| crate::wire::hex(d.as_bytes())).collect();
+        out.push(format!("p_c03\t{}\t!ok", hexes.join("\t")));
+    }
     for _ in 0..sz.histories {
         let h = rand_history(r, &KEYS[..8]);
         let hexes: Vec<String> = h.iter().map(|d| hex_doc(d, r.below(4))).collect();
